@@ -18,10 +18,10 @@ EXTENDS Integers, Sequences, FiniteSets, TLC, Json, PySlice
 
 SX == INSTANCE SequencesExt
 
-CONSTANTS MaxF,       \* 1..MaxF files
+CONSTANTS MinF, MaxF, \* MinF..MaxF files
           LSet,       \* true lengths (frames on disk) of a file
-          MaxS,       \* strides 1..MaxS (0 = no stride keyword)
-          MaxW,       \* 1..MaxW workers
+          StrideSet,  \* stride keywords in scope (0 = no stride keyword)
+          WSet,       \* numbers of workers in scope
           NAtoms,     \* atoms in every file
           KwMode,     \* "shared": the same keywords for every file; "perfile": one dict per file
           Frames,     \* TRUE: frame= loads are in scope
@@ -101,15 +101,20 @@ Cls ==
 
 (* ---- scope --------------------------------------------------------------------- *)
 KwChoices(len) ==
-  {[st |-> s, fr |-> None, at |-> a] : s \in 0..MaxS, a \in (IF AtomMode = "none" THEN {0} ELSE 0..Len(AtomSels))}
+  {[st |-> s, fr |-> None, at |-> a] : s \in StrideSet, a \in (IF AtomMode = "none" THEN {0} ELSE 0..Len(AtomSels))}
     \cup (IF Frames THEN {[st |-> 0, fr |-> t, at |-> a] : t \in {0, len - 1},
                                                           a \in (IF AtomMode = "none" THEN {0} ELSE 0..Len(AtomSels))}
                     ELSE {})
 
-KwOK(ll, kk) ==
-  /\ \A f \in 1..Len(ll) : kk[f] \in KwChoices(ll[f])
-  /\ KwMode = "shared" => \A f \in 1..Len(ll) : kk[f] = kk[1]
-  /\ AtomMode = "shared" => \A f \in 1..Len(ll) : kk[f].at = kk[1].at
+(* the keyword dictionaries of a call: one shared by every file (frame numbers must exist in the *)
+(* shortest file), or one per file                                                               *)
+MinOf(ll) == CHOOSE m \in {ll[f] : f \in 1..Len(ll)} : \A f \in 1..Len(ll) : m <= ll[f]
+KwSets(ll) ==
+  IF KwMode = "shared"
+  THEN {[f \in 1..Len(ll) |-> k] : k \in KwChoices(MinOf(ll))}
+  ELSE {kk \in [1..Len(ll) -> UNION {KwChoices(l) : l \in LSet}] :
+          /\ \A f \in 1..Len(ll) : kk[f] \in KwChoices(ll[f])
+          /\ AtomMode = "shared" => \A f \in 1..Len(ll) : kk[f].at = kk[1].at}
 
 MaxLen == CHOOSE m \in LSet : \A l \in LSet : l <= m
 
@@ -118,13 +123,12 @@ HintChoices(n, dl) ==
   ELSE {<<>>} \cup [1..n -> 1..MaxLen] \cup {Append(dl, 1)}
 
 Init ==
-  /\ L \in UNION {[1..n -> LSet] : n \in 1..MaxF}
-  /\ kw \in [1..Len(L) -> UNION {KwChoices(l) : l \in LSet}]
-  /\ KwOK(L, kw)
+  /\ L \in UNION {[1..n -> LSet] : n \in MinF..MaxF}
+  /\ kw \in KwSets(L)
   /\ hint \in HintChoices(Len(L), [f \in 1..Len(L) |->
                  IF kw[f].fr # None THEN 1 ELSE (L[f] + StrideOf(kw[f]) - 1) \div StrideOf(kw[f])])
   /\ hashint = (hint # <<>>)
-  /\ W \in 1..MaxW
+  /\ W \in WSet
   /\ pc = "start" /\ j = 0 /\ lengths = <<>> /\ bufw = 0 /\ buf = <<>> /\ wcount = <<>> /\ pos = <<>>
   /\ taken = {} /\ wtask = [w \in 1..W |-> 0] /\ shapes = <<>> /\ werr = "" /\ order = <<>> /\ err = ""
 
@@ -171,8 +175,10 @@ TakeAllowed(t) ==
   \/ (taken = {} \/ 1 \in taken) /\ t = Cardinality(taken) + 1
   \/ (taken = {} \/ NTasks \in taken) /\ t = NTasks - Cardinality(taken)
 
+(* workers are interchangeable: the idle worker with the lowest number takes (symmetry reduction) *)
 Take(w, t) ==
   /\ pc = "run" /\ wtask[w] = 0 /\ t \notin taken /\ TakeAllowed(t)
+  /\ \A v \in 1..(w - 1) : wtask[v] # 0
   /\ wtask' = [wtask EXCEPT ![w] = t]
   /\ taken' = taken \cup {t}
   /\ UNCHANGED <<L, kw, hashint, hint, W, pc, j, lengths, bufw, buf, wcount, pos, shapes, werr, order, err>>
@@ -211,8 +217,10 @@ Gather ==
   /\ pc' = "done"
   /\ UNCHANGED <<L, kw, hashint, hint, W, j, lengths, bufw, buf, wcount, pos, taken, wtask, shapes, werr, order>>
 
-Next == Start \/ Insert \/ InsertEnd \/ Alloc \/ Gather
-          \/ \E w \in 1..W : Write(w) \/ \E t \in 1..NTasks : Take(w, t)
+Takes  == \E w \in 1..W : \E t \in 1..NTasks : Take(w, t)
+Writes == \E w \in 1..W : Write(w)
+
+Next == Start \/ Insert \/ InsertEnd \/ Alloc \/ Takes \/ Writes \/ Gather
 
 Spec == Init /\ [][Next]_vars
 
